@@ -14,13 +14,17 @@ Notation sorted := (sorted multi).
 Inductive opf :=
 | OBase (o : BTreeHist2.op)
 | OInsertRange (ks : list Z)          (* Insert(begin, end) / Insert(initializer_list) *)
-| ORemoveKeyAll (k : Z).              (* Remove(key) of a multi container: the whole equal range *)
+| ORemoveKeyAll (k : Z)               (* Remove(key) of a multi container: the whole equal range *)
+| ORemoveIf (P : Z -> bool)           (* Remove(predicate) *)
+| OCopy.                              (* copy construction / copy assignment (the container becomes its pvCopy) *)
 
 Definition stepf (t : tree) (o : opf) : tree :=
   match o with
   | OBase o => BTreeHist2.step maxCap stepRaw blockCount linear multi t o
   | OInsertRange ks => insert_range maxCap stepRaw blockCount linear multi t ks
   | ORemoveKeyAll k => fst (remove_key_multi linear t k)
+  | ORemoveIf P => remove_if P t
+  | OCopy => copy_tree maxCap stepRaw blockCount t
   end.
 
 Definition spec_stepf (l : list Z) (o : opf) : list Z :=
@@ -28,14 +32,22 @@ Definition spec_stepf (l : list Z) (o : opf) : list Z :=
   | OBase o => BTreeHist2.spec_step multi l o
   | OInsertRange ks => spec_insert_list multi l ks
   | ORemoveKeyAll k => if existsb (Z.eqb k) l then firstn (lb_index l k) l ++ skipn (ub_index l k) l else l
+  | ORemoveIf P => filter (fun x => negb (P x)) l
+  | OCopy => l
   end.
+
+Lemma ss_filter (R : Z -> Z -> Prop) (f : Z -> bool) l : StronglySorted R l -> StronglySorted R (filter f l).
+Proof.
+  induction 1 as [|x l S IH F]; cbn [filter]; [constructor|]. destruct (f x); [|exact IH].
+  constructor; [exact IH|]. rewrite Forall_forall in *. intros y Hy. apply filter_In in Hy. apply F. tauto.
+Qed.
 
 Lemma stepf_refines t o :
   twf t -> sorted (contents t) ->
   twf (stepf t o) /\ sorted (contents (stepf t o)) /\ contents (stepf t o) = spec_stepf (contents t) o /\
   cnt (stepf t o) = length (contents (stepf t o)).
 Proof.
-  intros W S. destruct o as [o|ks|k]; cbn [stepf spec_stepf].
+  intros W S. destruct o as [o|ks|k|P|]; cbn [stepf spec_stepf].
   - apply (BTreeHist2.step_refines maxCap stepRaw blockCount linear multi Hmc t o W S).
   - apply (insert_range_refines maxCap stepRaw blockCount linear multi Hmc t ks W S).
   - destruct (remove_key_multi_spec maxCap linear multi Hmc t k W S) as (W' & C' & _).
@@ -46,6 +58,11 @@ Proof.
     rewrite C'. destruct (contains linear t k); auto.
     apply (range_sorted maxCap multi Hmc); auto.
     apply ft_le_impl'. intros x Hx. apply Z.ltb_lt in Hx. apply negb_true_iff, Z.ltb_ge. lia.
+  - destruct (remove_if_spec maxCap Hmc P t W) as (W' & C').
+    split; [exact W'|]. split; [|split; [exact C' | apply (count_is_length maxCap Hmc); exact W']].
+    rewrite C'. unfold BTreeHist.sorted in *. destruct multi; apply ss_filter; exact S.
+  - destruct (copy_tree_spec maxCap stepRaw blockCount Hmc t W) as (W' & C').
+    split; [exact W'|]. split; [rewrite C'; exact S|]. split; [exact C' | apply (count_is_length maxCap Hmc); exact W'].
 Qed.
 
 Theorem historyf_refines ops :
